@@ -160,6 +160,12 @@ def _harness(tier, seed):
                 # the instance constructor cuts items into squares and scans q up to half the smaller bin side.)
                 bw, bh = 999_999_999_001 + 2 * rng.randint(0, 400), 10_007
                 insts.append(Instance(f"Huge{tab}", bw, bh, [[10_000, 10_000, 2], [5_000, 5_000, 2], [4, 4, 1]]))
+            twins = []
+            if tab % 3 == 1:
+                # two different instances that carry the same name (every instance the generator derives from one template
+                # is named <template>n): the records of a table are told apart by more than the instance name
+                twins = [Instance("tw01n", 20, 10, [[10, 5, 3], [4, 4, 2]]), Instance("tw01n", 30, 12, [[7, 3, 5], [12, 6, 1], [2, 2, 4]])]
+                insts = insts + twins
             algos = rng.sample(["rls", "ea_1p1", "Rs2", "hc2"], rng.randint(1, 3))
             # the table shapes are enumerated, not drawn: every run sees each combination of the optional columns
             goal_mode = ("none", "all", "mixed")[tab % 3]
@@ -215,7 +221,8 @@ def _harness(tier, seed):
             # statistics over the same records
             try:
                 stats = []
-                ps_.from_packing_results(records, stats.append)
+                # (statistics aggregate the records of one instance *name*; the same-name twins are left out here)
+                ps_.from_packing_results([r_ for r_ in records if r_.end_result.instance != "tw01n"], stats.append)
                 f2 = os.path.join(scratch, f"stat{tab}.csv")
                 ps_.to_csv(stats, f2)
                 sback = list(ps_.from_csv(f2))
